@@ -410,3 +410,54 @@ def r6_slice_min(text):
     """V[A..B].iter().min().copied().unwrap_or(0)  ->  vt_slice_min_or0(&V, A, B)"""
     pat = re.compile(r'\b(%s)\[([^\]\n]+?)\.\.([^\]\n]+?)\]\s*\.iter\(\)\s*\.min\(\)\s*\.copied\(\)\s*\.unwrap_or\(0\)' % IDENT)
     return pat.subn(lambda m: 'vt_slice_min_or0(&%s, %s, %s)' % (m.group(1), m.group(2), m.group(3)), text)
+
+
+@rule('R8')
+def r8_break_value(text):
+    """let x = loop { .. break v .. };   ->   let x; loop { .. { x = v; break; } .. };     (break-with-value desugaring)"""
+    m = re.search(r'let (%s) = loop \{' % IDENT, text)
+    if not m:
+        return text, 0
+    x = m.group(1)
+    o = m.end() - 1
+    c = _balanced(text, o, '{', '}')
+    body = text[o:c + 1]
+    body2, k = re.subn(r'\bbreak ([^;,\n{}]+?)\s*([,;])', lambda mm: '{ %s = %s; break; }%s' % (x, mm.group(1), mm.group(2)), body)
+    if k == 0:
+        return text, 0
+    indent = _indent_of(text, m.start())
+    return text[:m.start()] + 'let %s;\n%sloop ' % (x, indent) + body2 + text[c + 1:], 1
+
+
+@rule('R6_weighted_arm')
+def r6_weighted_arm(text):
+    """named idioms of MultiTrainDataGenerator::next_idx (Weighted arm):
+       V.iter().enumerate().filter_map(|(i, f)| if !f { Some(i) } else { None }).collect()   -> vt_false_indices(&V)
+       I.iter().map(|i| W[*i]).collect::<Vec<usize>>()                                        -> vt_gather(&W, &I)"""
+    n = 0
+    pat = re.compile(r'(self\s*\.\s*%s|%s)\s*\.iter\(\)\s*\.enumerate\(\)\s*\.filter_map\(\|\((%s), (%s)\)\| if !(%s) \{ Some\((%s)\) \} else \{ None \}\)\s*\.collect\(\)' % ((IDENT,) * 6))
+
+    def sub(m):
+        v, i, f, f2, i2 = m.groups()
+        if f != f2 or i != i2:
+            return m.group(0)
+        return 'vt_false_indices(&%s)' % re.sub(r'\s+', '', v)
+    text, k = pat.subn(sub, text)
+    n += k
+    pat = re.compile(r'(%s)\s*\.iter\(\)\s*\.map\(\|(%s)\| (self\.%s|%s)\[\*(%s)\]\)\s*\.collect::<Vec<usize>>\(\)' % ((IDENT,) * 5))
+
+    def sub2(m):
+        idxs, i, w, i2 = m.groups()
+        if i != i2:
+            return m.group(0)
+        return 'vt_gather(&%s, &%s)' % (w, idxs)
+    text, k = pat.subn(sub2, text)
+    n += k
+    return text, n
+
+
+@rule('R6_all_deref')
+def r6_all_deref(text):
+    """V.iter().all(|f| *f)  ->  vt_all_true(&V)     (vstd's spec of Iterator::all is too weak to use)"""
+    return re.subn(r'(self\.%s|%s)\.iter\(\)\.all\(\|(%s)\| \*(%s)\)' % ((IDENT,) * 4),
+                   lambda m: 'vt_all_true(&%s)' % m.group(1) if m.group(2) == m.group(3) else m.group(0), text)
